@@ -50,6 +50,10 @@ Fixpoint calls_eqb (a b : list call) : bool :=
   | _, _ => false
   end.
 
+(* the AcceptChange / RevertChange calls among the calls received by the explored model *)
+Definition verdict_calls (l : list call) : list call :=
+  filter (fun x => match x with CAccept | CRevert => true | _ => false end) l.
+
 Definition optb_eqb (a b : option bool) : bool :=
   match a, b with
   | None, None => true
@@ -114,11 +118,12 @@ Definition check_step (d : direction) (law : bool) (s : state) (obj : float) (c 
   let ok :=
     (* the argument the harness exponentiated is the argument the code computes (bit for bit) *)
     (if draws d s i then same_bits (step_exp_arg d s i) (s_arg c) else true)
-    (* decision: events, and the calls on the explored model; for configured directions also the
+    (* decision: events, and the verdict calls on the explored model (the complete call sequence is
+       compared among the internal observables); for configured directions also the
        independent statement of the table *)
     && dec_eqb dec (o_dec c)
     && (if configured d then dec_eqb (metropolis_spec d i) (o_dec c) else true)
-    && calls_eqb (calls_of d dec) (o_calls c)
+    && calls_eqb (verdict_calls (calls_of d dec)) (verdict_calls (o_calls c))
     (* reported probability: exported field (meaningful after a valid proposal) and event attribute *)
     && (if s_valid c then same_bits (st_prob s1) (o_prob c) else true)
     && optf_same (match dec with RevertInvalid => None | _ => Some (st_prob s1) end) (o_evprob c)
@@ -127,6 +132,7 @@ Definition check_step (d : direction) (law : bool) (s : state) (obj : float) (c 
     && same_bits (st_T s2) (o_T c) in
   let ok_internal :=
     same_bits (st_prob s1) (o_prob c)
+    && calls_eqb (calls_of d dec) (o_calls c)
     && Bool.eqb (st_accepted s1) (o_accepted c)
     && Bool.eqb (st_invalid s1) (o_invalid c)
     && Bool.eqb (st_desirable s1) (o_desirable c)
